@@ -167,15 +167,18 @@ def correspondence(results):
     return dis, len(by_case), npts
 
 
-def real_signal_runs():
+def real_signal_runs(only=None, attempt=0):
     tmp = tempfile.mkdtemp(prefix='verif-c14r-')
     cmds = []
     for be in ('fork', 'spawn'):
         for mode in ('single', 'double', 'single_ext') + (('double_block',) if be == 'fork' else ()):
+            if only is not None and (be, mode) not in only:
+                continue
             cmds.append(([sys.executable, os.path.join(HERE, 'intr_real.py'), be, mode, os.path.join(tmp, f'{be}_{mode}.json')],
                          os.path.join(tmp, f'{be}_{mode}.json')))
     out = []
     viol = []
+    again = []
     for outp, ok, log, timed_out in spawn_workers(cmds, 60):
         if not ok:
             viol.append(dict(what=f'real SIGINT run {os.path.basename(outp)} did not finish (hang={timed_out}): {log[-200:]}',
@@ -183,6 +186,12 @@ def real_signal_runs():
             continue
         r = json.load(open(outp))
         out.append(r)
+        if r.get('swallowed'):
+            # the interrupt was raised inside a CPython finalizer / weakref callback and dropped there (reported through
+            # sys.unraisablehook): not an interrupt instant of the property; recorded, not judged
+            r['not_judged'] = 'KeyboardInterrupt raised and dropped inside ' + '; '.join(r['swallowed'])
+            again.append((r['backend'], r['mode']))
+            continue
         tag = f"real {r['backend']} run, {r['mode']} SIGINT"
         if r['out'] != 'KeyboardInterrupt':
             viol.append(dict(what=f'{tag}: run_tasks ended with {r["out"]}', replay=dict(kind='real-signal', rec=r)))
@@ -202,6 +211,10 @@ def real_signal_runs():
                 viol.append(dict(what=f'{tag}: running tasks were not terminated at once (finished later: {r["finished_later"]}, run_tasks ended {r["elapsed"]}s after the first signal; the tasks need 2.5s)',
                                  replay=dict(kind='real-signal', rec=r)))
     shutil.rmtree(tmp, ignore_errors=True)
+    if again and attempt < 2:
+        out2, viol2 = real_signal_runs(only=again, attempt=attempt + 1)   # repeat the runs that could not be judged
+        out += out2
+        viol += viol2
     return out, viol
 
 
